@@ -147,7 +147,14 @@ func c03Cfg(p c03Params) *WorldCfg {
 	ins := func(k int, v string) *Stmt {
 		return &Stmt{Kind: "insert", Table: "t", Cols: []string{"k", "v"}, Rows: [][]any{{int32(k), v}}}
 	}
-	if p.Seed == "page-full" {
+	if p.Seed == "many-pages" {
+		// five heap pages and an index of 655-byte keys: more pages than the pool has frames
+		var rows [][]any
+		for k := 1; k <= 30; k++ {
+			rows = append(rows, []any{int32(k), bigStr(fmt.Sprintf("s%d", k), 655)})
+		}
+		cfg.SeedStmts = append(cfg.SeedStmts, &Stmt{Kind: "insert", Table: "t", Cols: []string{"k", "v"}, Rows: rows[:15]}, &Stmt{Kind: "insert", Table: "t", Cols: []string{"k", "v"}, Rows: rows[15:]})
+	} else if p.Seed == "page-full" {
 		for k := 1; k <= 6; k++ {
 			cfg.SeedStmts = append(cfg.SeedStmts, ins(k, bigStr(fmt.Sprintf("s%d", k), 655)))
 		}
@@ -296,7 +303,7 @@ func init() {
 			if tier == "thorough" {
 				return 25 * time.Minute
 			}
-			return 300 * time.Second
+			return 480 * time.Second
 		},
 		Assume: []string{
 			"explicit transactions through the call sequence of ExecuteSQLRetValues; background threads off (H2)",
@@ -320,6 +327,12 @@ func init() {
 						Fresh: func() core.Instance { return NewWorld(c03Cfg(p)) }, MaxDepth: depth + 6, SplitDepth: 2})
 				}
 			}
+			// a pool smaller than the table and its indexes (12 frames): pages written by the victim are evicted
+			// - with their delete marks - before the abort, and the pages the abort repairs are evicted again
+			// before the battery reads them
+			ps := c03Params{Idx: "sql", Seed: "many-pages", MemKB: 48, Depth: depth}
+			core.BFS(c, core.SeqConfig{Name: "c03/sql/many-pages/mem48", Params: ps,
+				Fresh: func() core.Instance { return NewWorld(c03Cfg(ps)) }, MaxDepth: depth + 6, SplitDepth: 2})
 		},
 		Replay: func(raw json.RawMessage) (string, bool) {
 			var rp struct {
